@@ -27,6 +27,8 @@ def scratch_file(suffix):
 
 def full(tree):
     """complete snapshot: categories, labels, symbols, head flags, token dicts"""
+    if not tree.children:
+        return ('BROKEN-NO-CHILDREN', str(tree.cat), tree.op_string, tree.op_symbol)
     if tree.is_leaf:
         return ('L', str(tree.cat), tree.op_string, tree.op_symbol, dict(tree.token))
     if tree.is_unary:
